@@ -1,4 +1,4 @@
-SPECIFICATION FairSpec
+SPECIFICATION Spec
 CONSTANT Domains <- TDom
 INVARIANT DefsAgreeInv
 INVARIANT DocNotesInv
@@ -6,5 +6,4 @@ INVARIANT ForInv
 INVARIANT EndpInv
 INVARIANT FinalInv
 INVARIANT ProgressInv
-PROPERTY Terminates
 CHECK_DEADLOCK FALSE
